@@ -3,6 +3,7 @@ package c19
 import (
 	"fmt"
 	"math/rand"
+	"os"
 	"runtime"
 	"strconv"
 	"strings"
@@ -17,9 +18,12 @@ import (
 // RunRace is the command c19-omap-race of cmd/vhrace (race build): 8
 // goroutines hammer ONE public ordered map with random operations.  Demanded:
 // no data-race report, no panic, callbacks never see an ordered key without a
-// value, and the final state satisfies the invariants (order duplicate-free,
-// Len = number of iterated keys, every iterated key present, JSON lists the
-// same keys in the same order).
+// value, an iteration ended early (Each / Map whose callback returns an error,
+// Find at its first match) returns the callback's error after the calls up to
+// the stop, every round terminates (watchdog: a round whose goroutines are all
+// parked on the map's lock is the diff BLOCKED), and the final state satisfies
+// the invariants (order duplicate-free, Len = number of iterated keys, every
+// iterated key present, JSON lists the same keys in the same order).
 func RunRace(args []string) {
 	for _, a := range args {
 		if a == "--child" {
@@ -28,8 +32,10 @@ func RunRace(args []string) {
 		}
 	}
 	rep := vh.NewReport("c19-omap-race",
-		"rounds of 8 goroutines x 80 random ops (Set/Update/Delete/Filter/Map/Find/Each/EachSafe/Get/GetValue/Has/Len/MarshalJSON, random "+
-			"runtime.Gosched) on one shared jschema.ASTNodes or jschema.RuleASTNodes, in a child process under the race detector; "+
+		"rounds of 8 goroutines x 80 random ops (Set/Update/Delete/Filter/Map/Find/Each/EachSafe/Get/GetValue/Has/Len/MarshalJSON; Each and Map "+
+			"also with a callback that returns an error at a random entry; random "+
+			"runtime.Gosched) on one shared jschema.ASTNodes or jschema.RuleASTNodes, in a child process under the race detector; every round "+
+			"under a watchdog (goroutines parked on the map's lock = BLOCKED); "+
 			"non-trivial = at least one live key was deleted or filtered out and the final map is non-empty")
 	if !racekit.Enabled {
 		rep.Extra["race_detector"] = "OFF: binary built without -race (build cmd/vhrace with CGO_ENABLED=1 go build -race)"
@@ -89,8 +95,16 @@ func raceChild() {
 			}(g)
 		}
 		close(start)
-		wg.Wait()
 		key := fmt.Sprintf("round %d kind %s", round, kind)
+		if where := waitRound(&wg); where != "" {
+			res.Case(key, true)
+			res.AddDiff(vh.Diff{Component: "C19-conc", Input: fmt.Sprintf("%s, %d goroutines x %d ops, PRNG vh.NewRand(19700000+round*64+g)", key, G, N),
+				Impl:  "BLOCKED: the round does not terminate: " + where,
+				Model: "every op returns: an iteration that ends early (callback error, first match) releases the map's lock like one that runs to the end"})
+			res.Extra["ended_early"] = "a round blocked; its goroutines leak, the child stopped after " + key
+			res.Print()
+			os.Exit(0)
+		}
 		// final-state invariants (single-threaded now)
 		var order []string
 		seen := map[string]bool{}
@@ -146,6 +160,84 @@ func raceChild() {
 	res.Print()
 }
 
+// waitRound waits for the goroutines of a round.  A round takes milliseconds;
+// when it is not over after roundDeadline, the goroutine dump is consulted every
+// roundDeadline: the round is BLOCKED when, at two looks in a row, goroutines of
+// it exist, all of them are parked (none running / runnable) and at least one
+// waits for a sync lock.  Returns "" when the round ended.
+func waitRound(wg *sync.WaitGroup) string {
+	const roundDeadline = 3 * time.Second
+	fin := make(chan struct{})
+	go func() { wg.Wait(); close(fin) }()
+	strikes := 0
+	for {
+		select {
+		case <-fin:
+			return ""
+		case <-time.After(roundDeadline):
+		}
+		n, nParked, nLock, sample := hammerStates()
+		if n > 0 && nParked == n && nLock > 0 {
+			strikes++
+			if strikes >= 2 {
+				return fmt.Sprintf("all %d goroutines still in the round are parked, %d of them on the map's lock, e.g. %s", n, nLock, sample)
+			}
+		} else {
+			strikes = 0
+		}
+	}
+}
+
+// hammerStates inspects the goroutines that are inside raceChild's round
+// function (frame c19.raceChild.func…).
+func hammerStates() (n, nParked, nLock int, sample string) {
+	buf := make([]byte, 1<<20)
+	for {
+		k := runtime.Stack(buf, true)
+		if k < len(buf) {
+			buf = buf[:k]
+			break
+		}
+		buf = make([]byte, 2*len(buf))
+	}
+	for _, blk := range strings.Split(string(buf), "\n\n") {
+		if !strings.Contains(blk, "c19.raceChild.func") {
+			continue
+		}
+		n++
+		head := blk[:strings.IndexByte(blk+"\n", '\n')]
+		state := head
+		if i := strings.IndexByte(head, '['); i >= 0 {
+			state = strings.TrimSuffix(head[i+1:], "]:")
+		}
+		if i := strings.IndexByte(state, ','); i >= 0 {
+			state = state[:i]
+		}
+		if parked(state) {
+			nParked++
+		}
+		if strings.HasPrefix(state, "sync.") || state == "semacquire" {
+			nLock++
+			if sample == "" {
+				var fr []string
+				lines := strings.Split(blk, "\n")
+				for i := 1; i+1 < len(lines) && len(fr) < 4; i += 2 {
+					f := lines[i]
+					if j := strings.LastIndexByte(f, '('); j > 0 {
+						f = f[:j]
+					}
+					if strings.HasPrefix(f, "runtime.") || strings.HasPrefix(f, "sync.runtime_") || strings.HasPrefix(f, "internal/") {
+						continue
+					}
+					fr = append(fr, f)
+				}
+				sample = "[" + state + "] in " + strings.Join(fr, " <- ")
+			}
+		}
+	}
+	return
+}
+
 func hammerOp(m omap, r *rand.Rand, bad *atomic.Value, removed *atomic.Int64) {
 	k := keyStr(r.Intn(6))
 	chk := func(where string) func(string, int) {
@@ -176,15 +268,59 @@ func hammerOp(m omap, r *rand.Rand, bad *atomic.Value, removed *atomic.Int64) {
 			}
 			return keep
 		})
-	case x < 61:
+	case x < 59:
 		c := chk("Map")
 		m.Map(func(k string, v int) int { c(k, v); return v + 1 })
+	case x < 62:
+		// Map ended by its callback at the (n+1)-th entry
+		c := chk("Map")
+		n, calls := r.Intn(4), 0
+		err := m.MapErr(func(k string, v int) (int, error) {
+			c(k, v)
+			calls++
+			if calls == n+1 {
+				return v, errStop
+			}
+			if calls > n+1 {
+				bad.CompareAndSwap(nil, "Map called its callback again after the callback had returned an error")
+			}
+			return v + 1, nil
+		})
+		if (err == errStop) != (calls >= n+1) || (err != nil && err != errStop) {
+			bad.CompareAndSwap(nil, fmt.Sprintf("Map: %d callback calls, error at call %d, returned %v", calls, n+1, err))
+		}
 	case x < 68:
 		p := r.Intn(4)
 		c := chk("Find")
-		m.Find(func(k string, v int) bool { c(k, v); return pred(p, keyInt(k), v) })
-	case x < 74:
+		matched := false
+		m.Find(func(k string, v int) bool {
+			c(k, v)
+			if matched {
+				bad.CompareAndSwap(nil, "Find called its callback again after the first match")
+			}
+			matched = pred(p, keyInt(k), v)
+			return matched
+		})
+	case x < 72:
 		m.Each(chk("Each"))
+	case x < 76:
+		// Each ended by its callback at the (n+1)-th entry
+		c := chk("Each")
+		n, calls := r.Intn(4), 0
+		err := m.EachErr(func(k string, v int) error {
+			c(k, v)
+			calls++
+			if calls == n+1 {
+				return errStop
+			}
+			if calls > n+1 {
+				bad.CompareAndSwap(nil, "Each called its callback again after the callback had returned an error")
+			}
+			return nil
+		})
+		if (err == errStop) != (calls >= n+1) || (err != nil && err != errStop) {
+			bad.CompareAndSwap(nil, fmt.Sprintf("Each: %d callback calls, error at call %d, returned %v", calls, n+1, err))
+		}
 	case x < 80:
 		m.EachSafe(chk("EachSafe"))
 	case x < 85:
